@@ -104,7 +104,70 @@ def check(prog, rec):
     if hasloop: rec.label('has-loop')
 
 
-SUBS = [Sub('nodes', strategy, check, {'quick': 3000, 'thorough': 30000}, timeout=25)]
+# ---- user-level function arrays: announced shape, dtype and arguments vs evaluation ---------------------------------
+
+def fn_cases(tier):
+    from props import c13
+    return c13.cases(tier)
+
+
+def check_fn(case, rec):
+    """f, replace_arguments(f, map in every spelling), derivative(f, u), linearize(f, u:du) and their integrals announce a shape, a dtype and a
+    set of arguments (name -> shape, dtype); evaluation with exactly the announced arguments must work and deliver that shape and dtype, extra
+    arguments must not matter, and leaving out an announced argument that the expression uses must raise"""
+    import warnings
+    from nutils import function
+    from props import c13
+    args = case['args']
+    with warnings.catch_warnings(), numpy.errstate(all='ignore'):
+        warnings.simplefilter('ignore')
+        A = {n: c13.arr(a) for n, a in args.items()}
+        F = {n: function.Argument(n, tuple(a['shape'])) for n, a in args.items()}
+        f = c13.ev(case['f'], F)
+        if not isinstance(f, function.Array):
+            raise Discard('no-argument-used')
+        repl = case['repl']
+        extra = {r['name']: numpy.array(r['value'], dtype=float).reshape(args[n]['shape']) for n, r in repl if r['kind'] == 'newarg'}
+        Aall = {**A, **extra}
+        objs = [('f', f)]
+        for name, spec in c13.render_map(case, F):
+            try:
+                objs.append((f'replace_arguments[{name}]', function.replace_arguments(f, spec)))
+            except Exception as e:
+                raise Discard('replace-raised')      # C13's subject
+        wrt = case['wrt']
+        if wrt in f.arguments:
+            objs.append((f'derivative[{wrt}]', function.derivative(f, wrt)))
+            objs.append((f'linearize[{wrt}]', function.linearize(f, f'{wrt}:d{wrt}')))
+            Aall['d' + wrt] = numpy.array(case['direction'][:max(1, int(numpy.prod(args[wrt]['shape'])))], dtype=float).reshape(args[wrt]['shape'])
+            # a replacement applied to the derivative: announced arguments of a chain
+            objs.append((f'replace(derivative[{wrt}])', function.replace_arguments(objs[-2][1], {wrt: Aall[wrt] * 0 + 1.})))
+        for name, g in objs:
+            announced = dict(g.arguments)
+            unknown = set(announced) - set(Aall)
+            if unknown:
+                raise Violation('announced-unknown-argument', f'{name}: announces {sorted(unknown)} which nothing introduced (f={c13._show(case["f"])}, map {repl})', where='fn-arguments:unknown')
+            for n, (shape, dtype) in announced.items():
+                if tuple(shape) != Aall[n].shape or dtype != float:
+                    raise Violation('announced-argument-type', f'{name}: announces {n} as {shape} {dtype}, it is {Aall[n].shape} float', where='fn-arguments:type')
+            try:
+                v1 = numpy.asarray(function.eval(g, arguments={n: Aall[n] for n in announced}))
+            except Exception as e:
+                raise Violation('unannounced-argument-needed', f'{name}: evaluation with exactly the announced arguments {sorted(announced)} raised {type(e).__name__}: {str(e)[:200]} (f={c13._show(case["f"])}, map {repl})', where='fn-arguments:needed')
+            if v1.shape != tuple(g.shape):
+                raise Violation('announced-shape', f'{name}: announced shape {tuple(g.shape)}, evaluated {v1.shape}', where='fn-shape')
+            if {'f': float, 'i': int, 'b': bool, 'c': complex}.get(v1.dtype.kind) != g.dtype:
+                raise Violation('announced-dtype', f'{name}: announced dtype {g.dtype}, evaluated {v1.dtype}', where='fn-dtype')
+            pert = {n: (v + 1.5 if n not in announced else v) for n, v in Aall.items()}
+            v2 = numpy.asarray(function.eval(g, arguments=pert))
+            if not numpy.array_equal(v1, v2, equal_nan=True):
+                raise Violation('unannounced-argument-matters', f'{name}: changing arguments outside {sorted(announced)} changed the value', where='fn-arguments:extra')
+            rec.label('fn:' + name.split('[')[0])
+        rec.nontrivial = len(objs) > 2
+
+
+SUBS = [Sub('nodes', strategy, check, {'quick': 3000, 'thorough': 30000}, weight=4, timeout=25),
+        Sub('function', fn_cases, check_fn, {'quick': 300, 'thorough': 5000}, weight=1, timeout=60)]
 
 def _upstream_c01(case, v):
     prog = case.get('prog', case)
